@@ -769,7 +769,6 @@ fn declare(declaration: Declaration, typer: &mut Typer) -> Declaration
 						if !vt.can_be_constant()
 							|| typer.holds_opaque_structure(&vt) =>
 					{
-						assert!(vt.is_wellformed(), "{vt:?}");
 						Err(Poison::Error(Error::IllegalConstantType {
 							value_type: vt,
 							location: name.location.clone(),
@@ -1195,7 +1194,6 @@ impl Member
 					{
 						Ok(name) =>
 						{
-							assert!(vt.is_wellformed(), "{vt:?}");
 							Err(Poison::Error(Error::IllegalMemberType {
 								value_type: vt,
 								in_word,
@@ -1260,7 +1258,6 @@ impl Parameter
 					{
 						Ok(name) =>
 						{
-							assert!(vt.is_wellformed(), "{vt:?}");
 							Err(Poison::Error(Error::IllegalParameterType {
 								value_type: vt,
 								location: name.location.clone(),
@@ -3536,7 +3533,6 @@ fn fix_return_type_for_flags(
 	}
 	else
 	{
-		assert!(value_type.is_wellformed(), "{value_type:?}");
 		let error = Error::IllegalReturnType {
 			value_type,
 			location: location_of_type.clone(),
